@@ -1271,7 +1271,7 @@ func castPerTarget(c *Ctx, r *R, cs *bigSwitch) {
 				s := cd.String()
 				// the declared types may have been resolved ahead of the stores into a table keyed
 				// by target: a lookup in it stands for typeFromToken(target.Tokens[0])
-				if strings.HasPrefix(s, "!") && strings.Contains(s, "slices.Contains(") && strings.Contains(s, "map[*token]Type{}[") && c.typeTableOf(sc.Clause) != "" {
+				if strings.HasPrefix(s, "!") && strings.Contains(s, "slices.Contains(") && (strings.Contains(s, "map[*token]Type{}[") || strings.Contains(s, "builtin.make(type:[]Type, ")) && c.typeTableOf(sc.Clause) != "" {
 					established = true
 				}
 				if strings.HasPrefix(s, "!") && (strings.Contains(s, "typeFromToken(") || strings.Contains(s, ".Tokens) > 0")) {
@@ -1338,8 +1338,14 @@ func (c *Ctx) typeTableOf(cl *ast.CaseClause) string {
 			if !ok {
 				continue
 			}
-			mt, ok := c.TypeOf(ix.X).Underlying().(*types.Map)
-			if !ok || !c.isTokenPtr(mt.Key()) {
+			isSlice := false
+			if mt, ok := c.TypeOf(ix.X).Underlying().(*types.Map); ok {
+				if !c.isTokenPtr(mt.Key()) {
+					continue
+				}
+			} else if st, ok := c.TypeOf(ix.X).Underlying().(*types.Slice); ok && isNamed(st.Elem(), "Type") {
+				isSlice = true
+			} else {
 				continue
 			}
 			mid, ok := unparen(ix.X).(*ast.Ident)
@@ -1358,10 +1364,45 @@ func (c *Ctx) typeTableOf(cl *ast.CaseClause) string {
 				continue
 			}
 			call, ok := unparen(as.Rhs[i]).(*ast.CallExpr)
-			if !ok || c.CalleeName(call) != "typeFromToken" || len(call.Args) != 2 || nosp(c.Src(call.Args[1])) != kid.Name+".Tokens[0]" {
+			if !ok || c.CalleeName(call) != "typeFromToken" || len(call.Args) != 2 {
 				bad++
 				continue
 			}
+			// the element the type is read from: the key itself (map) or the range value of the
+			// loop whose key indexes the table (slice)
+			elem := kid
+			if isSlice {
+				elem = nil
+				for p := c.Parent(as); p != nil && p != ast.Node(cl); p = c.Parent(p) {
+					if rs, ok := p.(*ast.RangeStmt); ok {
+						if k, ok := rs.Key.(*ast.Ident); ok && c.Obj(k) == c.Obj(kid) {
+							if v, ok := rs.Value.(*ast.Ident); ok {
+								elem = v
+							}
+						}
+						break
+					}
+				}
+				if elem == nil {
+					bad++
+					continue
+				}
+				// the table is made with one slot per target
+				if def := c.singleDef(mid); def != nil {
+					if mk, ok := unparen(def).(*ast.CallExpr); !ok || c.CalleeName(mk) != "builtin.make" || len(mk.Args) != 2 || !strings.HasPrefix(nosp(c.Src(mk.Args[1])), "len(") {
+						bad++
+						continue
+					}
+				} else {
+					bad++
+					continue
+				}
+			}
+			if nosp(c.Src(call.Args[1])) != elem.Name+".Tokens[0]" {
+				bad++
+				continue
+			}
+			kid = elem
 			// enclosing statements up to the range loop over the targets
 			okPath := false
 			child := ast.Node(as)
@@ -1372,7 +1413,14 @@ func (c *Ctx) typeTableOf(cl *ast.CaseClause) string {
 						bad++
 					}
 				case *ast.RangeStmt:
-					if v, ok := x.Value.(*ast.Ident); ok && c.Obj(v) == c.Obj(kid) && strings.HasSuffix(nosp(c.Src(x.X)), ".Tokens[0].Tokens") {
+					overTargets := strings.HasSuffix(nosp(c.Src(x.X)), ".Tokens[0].Tokens")
+					if id, ok := unparen(x.X).(*ast.Ident); ok && !overTargets {
+						// a local holding the target list
+						if def := c.singleDef(id); def != nil && strings.HasSuffix(nosp(c.Src(def)), ".Tokens[0].Tokens") {
+							overTargets = true
+						}
+					}
+					if v, ok := x.Value.(*ast.Ident); ok && c.Obj(v) == c.Obj(kid) && overTargets {
 						okPath = true
 					} else {
 						bad++
